@@ -391,3 +391,21 @@ V("c08-local-index-store", "C08", "fire", UT, "                for j in real_nei
 V("c08-orient-away", "C08", "fire", UT, "                for j in real_neighbors:\n                    G[j, real_i] = 1\n", "                for j in real_neighbors:\n                    G[real_i, j] = 1\n", rule="INDEX.real-names", what="edges oriented out of the sink")
 V("c08-indexes-not-shrunk", "C08", "fire", UT, "                indexes.remove(real_i)  # to keep track of the real\n", "                pass\n", rule="INDEX.pairing", what="name list out of step with the matrix")
 V("c08-silent-label-names", "C08", "silent", UT, "    fros, tos = np.where(labelled == -1)", "    REVERSIBLE = -1\n    fros, tos = np.where(labelled == REVERSIBLE)", what="named constant")
+
+# ------------------------------------------------------------------------------- C10
+V("c10-targets-guard-dropped", "C10", "fire", UT, "    if not I <= set(range(len(A))):\n        raise ValueError(\"Targets I must be a subset of [p].\")\n", "", rule="GUARD.targets", what="out-of-range targets accepted")
+V("c10-imec-ignores-I", "C10", "fire", UT, "        icpdag = dag_to_icpdag(A, I)\n        return all_dags(icpdag)", "        icpdag = dag_to_cpdag(A)\n        return all_dags(icpdag)", rule="DISPATCH", what="imec returns the whole MEC")
+V("c10-chain-filter-rows", "C10", "fire", UT, "        if (me[:, I] == A[:, I]).all():", "        if (me[I, :] == A[I, :]).all():", rule="COLUMNS", what="compares children instead of parents")
+V("c10-chain-filter-any", "C10", "fire", UT, "        if (me[:, I] == A[:, I]).all():", "        if (me[:, I] == A[:, I]).any():", rule="COLUMNS", what="one matching entry suffices")
+V("c10-edges-parents-reversed", "C10", "fire", UT, "        directed_edges += [(j, i) for j in pa(i, G)]\n", "        directed_edges += [(i, j) for j in pa(i, G)]\n", rule="ORIENT.edges", what="parent edges fixed in the wrong direction")
+V("c10-edges-no-parents", "C10", "fire", UT, "        directed_edges += [(j, i) for j in pa(i, G)]\n", "", rule="ORIENT.edges", what="incoming edges at targets not fixed")
+V("c10-clear-forward", "C10", "fire", UT, "        (x, y) = directed_edges.pop()\n        P[y, x] = 0\n", "        (x, y) = directed_edges.pop()\n        P[x, y] = 0\n", rule="ORIENT.clear", what="clears the edge itself instead of its reverse")
+V("c10-meek-first-branch", "C10", "fire", UT, "                    print('Rules: %s => Oriented %d -> %d' % (rules, i, j))\n                P[j, i] = 0\n", "                    print('Rules: %s => Oriented %d -> %d' % (rules, i, j))\n                P[i, j] = 0\n", rule="ORIENT.meek", what="first Meek branch orients against the rules")
+V("c10-meek-second-guard", "C10", "fire", UT, "            elif rule_1(j, i, P) or rule_2(j, i, P) or rule_3(j, i, P) or rule_4(j, i, P):", "            elif rule_1(j, i, P) or rule_2(j, i, P) or rule_3(i, j, P) or rule_4(j, i, P):", rule="ORIENT.meek", what="one rule called with swapped arguments")
+V("c10-meek-rule-missing", "C10", "fire", UT, "            if rule_1(i, j, P) or rule_2(i, j, P) or rule_3(i, j, P) or rule_4(i, j, P):", "            if rule_1(i, j, P) or rule_2(i, j, P) or rule_3(i, j, P):", rule="ORIENT.meek", what="rule 4 not applied in one direction")
+V("c10-meek-no-copy", "C10", "fire", UT, "        raise e\n    P = P.copy()\n", "        raise e\n    P = P + 0\n", rule="ORIENT.fixpoint", what="copy idiom not recognised", accept_inconclusive=True)
+V("c10-pdag-guard-dropped", "C10", "fire", UT, "    for i in I:\n        if len(neighbors(i, P)) > 0:\n            msg = \"Invalid PDAG: has undirected edges around %d for I=%s\"\n            raise ValueError(msg % (i, I))\n", "", rule="GUARD.undirected-at-target", what="undirected edges at targets accepted")
+V("c10-pdag-guard-adj", "C10", "fire", UT, "        if len(neighbors(i, P)) > 0:\n            msg", "        if len(ch(i, P)) > 0:\n            msg", rule="GUARD.undirected-at-target", what="guard tests children")
+V("c10-no-final-assert", "C10", "fire", UT, "    assert is_consistent_extension(G, P)\n    return P\n", "    return P\n", rule="RESULT", what="consistency assertion removed")
+V("c10-silent-issubset", "C10", "silent", UT, "    if not I <= set(range(len(A))):", "    if not I.issubset(range(len(A))):", what="issubset spelling")
+V("c10-silent-guard-nonempty", "C10", "silent", UT, "        if len(neighbors(i, P)) > 0:\n            msg", "        if neighbors(i, P) != set():\n            msg", what="emptiness spelling")
